@@ -18,6 +18,8 @@ def run(ctx):
     genprog.r_generators(ctx, {"emit"})    # the generators unrolled: one condition per sample / admissible pair, whatever the labels
     ca = formula.get(ctx.repo)
     n = formula.r_formula(ctx, "complete")
+    from . import hookprog
+    hookprog.r_hook_programs(ctx, "complete")   # every hook unrolled on three concrete samples: exactly the documented instances are emitted
     sites, sym = formula.r_skip(ctx)
     formula.r_diag(ctx)
     nl = formula.r_one_and_lmidom(ctx)
